@@ -446,11 +446,11 @@ impl E1 {
                     // one call per unit in derive mode
                     for u in &c.units {
                         opts.operation_name = Some(u.struct_name.clone());
-                        jobs.push(Job { schema_path: sp.to_string_lossy().into(), query: QuerySrc::Text(c.document.clone()), opts: opts.clone() });
+                        jobs.push(Job { schema_path: sp.to_string_lossy().into(), query: QuerySrc::Text(c.document.clone()), opts: opts.clone(), cwd: None });
                         job_case.push(i);
                     }
                 } else {
-                    jobs.push(Job { schema_path: sp.to_string_lossy().into(), query: QuerySrc::Text(c.document.clone()), opts });
+                    jobs.push(Job { schema_path: sp.to_string_lossy().into(), query: QuerySrc::Text(c.document.clone()), opts, cwd: None });
                     job_case.push(i);
                 }
             }
